@@ -78,6 +78,11 @@ def enc(c, P, rep):
 REPS = {"basic": ["basic"], "projc": ["basic", "projc", "projc"], "jacob": ["basic", "jacob", "jacob"]}
 
 
+def NATIVE(c):
+    """affine plus the build's own projective system: what a caller holds after a group operation"""
+    return REPS[{c.BASIC: "basic", c.PROJC: "projc", c.JACOB: "jacob"}[c.EP_ADD]]
+
+
 def rep_kinds_for(c, op):
     if op.endswith("_basic") or "slp" in op:
         return REPS["basic"]
@@ -277,7 +282,8 @@ def strat_mul(env, cfg):
         k = draw(ints.scalar(c.n, bn_bits, c.lam))
         if op == "ep_mul_dig":
             k = draw(ints.digit(c.F.W))
-        kinds = ["basic"]
+        # the point may arrive as the result of a group operation, i.e. in the build's projective system
+        kinds = REPS[{c.BASIC: "basic", c.PROJC: "projc", c.JACOB: "jacob"}[c.EP_ADD]] if op != "ep_mul_gen" else ["basic"]
         # now and then another curve is selected right before this one (flags / tables / lattice constants left
         # behind by the previous selection must not leak into the multiplication)
         prev = draw(st.sampled_from(others)) if others and draw(st.integers(0, 24)) == 0 else None
@@ -354,7 +360,8 @@ def strat_fix(env, cfg):
         i = draw(st.integers(0, len(FIX) - 1))
         P = draw(st.one_of(st.just({"m": 1}), point_spec(c, allow_outside=False)))
         ks = [draw(ints.scalar(c.n, 1024, c.lam)) for _ in range(draw(st.integers(1, 3)))]
-        return dict(cid=c.cid, alg=i, P=P, ks=ks, poison=draw(st.integers(0, 255)))
+        rp = draw(rep_spec(c, NATIVE(c)))
+        return dict(cid=c.cid, alg=i, P=P, ks=ks, rp=rp, poison=draw(st.integers(0, 255)))
     return s()
 
 
@@ -368,7 +375,7 @@ def run_fix(env, cfg, case):
     what = "%s/%s[cid=%d]" % (pre, fix, c.cid)
 
     def build(p):
-        sp = p.new("EP", enc(c, P, {"kind": "basic", "z": 1}))
+        sp = p.new("EP", enc(c, P, case.get("rp") or {"kind": "basic", "z": 1}))
         st_ = p.new("EPV", struct.pack("<II", tabsz, 0))
         p.call(pre, st_, sp)
         outs = []
@@ -408,18 +415,28 @@ def strat_sim(env, cfg):
     @st.composite
     def s(draw):
         op = draw(st.sampled_from(SIM2 + ["ep_mul_sim_lot", "ep_mul_sim_lot", "ep_mul_sim_dig"]))
+        big = False
         if op in SIM2:
             npts = 2
+        elif op == "ep_mul_sim_lot" and draw(st.sampled_from([0] * 7 + [1])):
+            # the many-point (bucket) branch widens its window with the number of points (w = bits(n) - 2): sizes
+            # around every power of two up to 130. Points are small multiples of G so that the reference is one
+            # multiplication by sum k_i m_i
+            npts = draw(st.sampled_from([15, 16, 17, 31, 32, 33, 40, 63, 64, 65, 100, 127, 128, 130]))
+            big = True
         else:
-            npts = draw(st.sampled_from([0, 1, 2, 3, 4, 7, 8, 9, 12]))
+            npts = draw(st.sampled_from([0, 1, 2, 3, 4, 7, 8, 9, 10, 11, 12]))
         pts, ks = [], []
         for i in range(npts):
-            if i and draw(st.integers(0, 4)) == 0:
+            if big:
+                pts.append({"m": draw(st.sampled_from([1, 2, 3, 5, 7, 11, 13, 16, 17, -1, -2, -3, 29, 31, 64]))})
+            elif i and draw(st.integers(0, 4)) == 0:
                 pts.append(dict(pts[draw(st.integers(0, i - 1))]))     # repeated point
             else:
                 pts.append(draw(point_spec(c, allow_outside=False)))
             ks.append(draw(ints.digit(c.F.W)) if op == "ep_mul_sim_dig" else draw(ints.scalar(c.n, 1024, c.lam)))
-        return dict(cid=c.cid, op=op, pts=pts, ks=ks, poison=draw(st.integers(0, 255)))
+        reps = [draw(rep_spec(c, NATIVE(c))) for _ in range(npts)] if draw(st.sampled_from([0, 1])) else None
+        return dict(cid=c.cid, op=op, pts=pts, ks=ks, reps=reps, poison=draw(st.integers(0, 255)))
     return s()
 
 
@@ -431,16 +448,22 @@ def run_sim(env, cfg, case):
     ks = case["ks"]
     if op == "ep_mul_sim_gen":
         pts = [c.G, pts[1]]
-    want = None
-    for P, k in zip(pts, ks):
-        want = E.add(want, E.mul(k, P))
+    if len(pts) > 12 and all("m" in s_ for s_ in case["pts"]):
+        want = E.mul(sum(k * s_["m"] for k, s_ in zip(ks, case["pts"])) % c.n, c.G)
+    else:
+        want = None
+        for P, k in zip(pts, ks):
+            want = E.add(want, E.mul(k, P))
     what = "%s[cid=%d](n=%d)" % (op, c.cid, len(pts))
     basic = {"kind": "basic", "z": 1}
+    reps = case.get("reps") or [basic] * len(pts)
+    if op == "ep_mul_sim_gen" and len(reps) > 1:
+        reps = [basic, reps[1]]
 
     def build(p):
         sr = p.new("EP", enc(c, c.G, basic))
         if op in SIM2:
-            s0, s1 = p.new("EP", enc(c, pts[0], basic)), p.new("EP", enc(c, pts[1], basic))
+            s0, s1 = p.new("EP", enc(c, pts[0], reps[0])), p.new("EP", enc(c, pts[1], reps[1]))
             k0, k1 = p.bn(ks[0]), p.bn(ks[1])
             if op == "ep_mul_sim_gen":
                 p.call(op, sr, k0, s1, k1)
@@ -450,7 +473,7 @@ def run_sim(env, cfg, case):
                 ins = [s0, k0, s1, k1]
         else:
             n = len(pts)
-            body = b"".join(enc(c, P, basic) for P in pts)
+            body = b"".join(enc(c, P, r_) for P, r_ in zip(pts, reps))
             sv = p.new("EPV", struct.pack("<II", n, n) + body)
             if op == "ep_mul_sim_dig":
                 db = c.F.W // 8
